@@ -6,4 +6,4 @@ CONSTANTS
   BoolAtoms = {"u"}
   Emit = TRUE
   CombSizes = {}
-  Forms = {"fld"}
+  Forms = {"fld", "callfld"}
